@@ -382,7 +382,7 @@ fn check_graph_roots(l: &mut Local, m: &Mat, roots: &[usize]) {
 }
 
 pub fn run(run: &mut Run) {
-    run.rule = "graphs up to 14x14 in 11 families plus hub graphs with a node of degree 255..600 whose only cycle leaves it through adjacency-list positions a and a+{1,255,256,257,512} (forests, cycle with pendant trees, two cycles joined by a path, dense, disconnected, complete, circulant, forest+edge, cycle+chord+pendant path, sparse); for each graph ALL roots (rows and columns) and ALL bounds 0..g+3 and usize::MAX are queried and compared with a plain-BFS oracle on an explicit adjacency list (local girth = min over neighbours u of 1 + dist(u,v) without edge uv); non-trivial = (graph, root) where the graph has a cycle and the root does not lie on a shortest one".into();
+    run.rule = "graphs up to 14x14 in 11 families plus one cycle / one path through more than 2^16 nodes per side (distances and local girths in the tens of thousands; index widths), a ring of 16 columns dragging thousands of pendant rows plus a 4-cycle queried inside rayon pools of 2/4/16 threads, and hub graphs with a node of degree 255..600 whose only cycle leaves it through adjacency-list positions a and a+{1,255,256,257,512} (forests, cycle with pendant trees, two cycles joined by a path, dense, disconnected, complete, circulant, forest+edge, cycle+chord+pendant path, sparse); for each graph ALL roots (rows and columns) and ALL bounds 0..g+3 and usize::MAX are queried and compared with a plain-BFS oracle on an explicit adjacency list (local girth = min over neighbours u of 1 + dist(u,v) without edge uv); non-trivial = (graph, root) where the graph has a cycle and the root does not lie on a shortest one".into();
     run.assumptions = vec!["oracle BFS and edge-removal local girth are written from the definitions".into()];
     let n = if cfg!(miri) { 12 } else { run.tier.n(250_000, 8_000_000) };
     run.sub("graphs", n, |l, _idx, rng| {
@@ -463,6 +463,76 @@ pub fn run(run: &mut Run) {
             }
             let mut d = Dig::new();
             d.s("pool").u(idx).u(pend as u64);
+            l.nt(d.get());
+        });
+    }
+    // graphs with more than 2^16 nodes on each side (index widths): one long cycle or one long path, plus a short
+    // cycle far out; distances and local girths run into the tens of thousands
+    if !cfg!(miri) {
+        run.sub("long-graphs", run.tier.n(4, 40), |l, idx, rng| {
+            let n = 65_537 + rng.below(3000);
+            let closed = idx % 2 == 0;
+            // column c joins rows c and c+1 (a path); closing it makes a cycle of length 2n
+            let mut e: Vec<(usize, usize)> = Vec::new();
+            for c in 0..n {
+                e.push((c, c));
+                if c + 1 < n {
+                    e.push((c + 1, c));
+                } else if closed {
+                    e.push((0, c));
+                }
+            }
+            let m = Mat::new(n, n, e, if closed { "cycle-of-2n-nodes" } else { "path-of-2n-nodes" });
+            let g = Graph::new(m.rows, m.cols, &m.e);
+            let h = m.to_sparse();
+            for root in [0usize, n - 1, n + 65_536, n + rng.below(n), rng.below(n)] {
+                let (node, name) = if root < n { (Node::Row(root), format!("Row({})", root)) } else { (Node::Col(root - n), format!("Col({})", root - n)) };
+                l.eval();
+                match guard(|| h.bfs(node)) {
+                    Err(p) => {
+                        l.violation(format!("bfs panicked on a long graph: {}", panic_class(&p)), J::obj().set("family", m.family).set("nodes_per_side", n).set("root", name.clone()));
+                        return;
+                    }
+                    Ok(res) => {
+                        let got: Vec<Option<usize>> = res.row_nodes_distance.iter().cloned().chain(res.col_nodes_distance.iter().cloned()).collect();
+                        let want = g.dist(root);
+                        if got != want {
+                            let i = (0..got.len()).find(|&i| got[i] != want[i]).unwrap();
+                            l.violation(
+                                "bfs distances differ from true shortest paths (graph with more than 2^16 nodes per side)",
+                                J::obj().set("family", m.family).set("nodes_per_side", n).set("root", name.clone()).set("first_wrong_node", i).set("got", got[i]).set("expected", want[i]),
+                            );
+                            return;
+                        }
+                    }
+                }
+                let lg = g.local_girth(root);
+                for b in [6usize, 100_000, usize::MAX] {
+                    l.eval();
+                    match guard(|| h.girth_at_node_with_max(node, b)) {
+                        Ok(got) if got == cut(lg, b) => {}
+                        Ok(got) => {
+                            l.violation(
+                                "girth_at_node_with_max wrong on a graph with more than 2^16 nodes per side",
+                                J::obj().set("family", m.family).set("nodes_per_side", n).set("root", name.clone()).set("bound", b).set("got", got).set("expected", cut(lg, b)),
+                            );
+                            return;
+                        }
+                        Err(p) => {
+                            l.violation(format!("girth_at_node_with_max panicked on a long graph: {}", panic_class(&p)), J::obj().set("family", m.family).set("root", name.clone()));
+                            return;
+                        }
+                    }
+                }
+            }
+            l.eval();
+            match guard(|| h.girth_with_max(12)) {
+                Ok(None) => {}
+                Ok(got) => l.violation("girth_with_max(12) reports a short cycle on a long cycle/path graph", J::obj().set("family", m.family).set("nodes_per_side", n).set("got", got)),
+                Err(p) => l.violation(format!("girth_with_max panicked on a long graph: {}", panic_class(&p)), J::obj().set("family", m.family)),
+            }
+            let mut d = Dig::new();
+            d.s("long").u(n as u64).u(closed as u64);
             l.nt(d.get());
         });
     }
